@@ -124,6 +124,8 @@ class Check:
                 shutil.rmtree(d)
             d.mkdir(parents=True)
         (BUILD / "replays").mkdir(parents=True, exist_ok=True)
+        for old in (BUILD / "replays").glob(f"{pid}_*.json"):
+            old.unlink()
         self.obligations = []  # dict(name, status, assumptions)
         self.broken = []  # dict(kind, name, detail)
         self.viol = []  # dict(key, what, replay)
